@@ -20,6 +20,7 @@ VARIABLES tr, i,
           evals, firstEvalT, pendingV,
           progS, progF,
           cancelT, timeoutSeen, retSeen, ret,
+          stageEvals, stageEvalT, \* rate evaluations since the current file stage began, and when the first of them was made
           stageBeginT,      \* when the current file stage began
           banner,           \* what the summary said ("passed" | "failed"; "" = no summary seen)
           lastCleanT,       \* when a worker last became free (an iteration's cleanups finished); -1: never
@@ -33,7 +34,7 @@ VARIABLES tr, i,
           why
 vars == <<tr, i, setupSeen, ids, liveIds, liveH, endedIds, cleaned, succT, failT, sumTicks, lateSum, dropSum,
           stopSeen, limitSeen, evals, firstEvalT, pendingV, progS, progF, cancelT, timeoutSeen, retSeen, ret,
-          mS, mF, mD, mSetup, mSetupRes, labelsBad, stageCur, stageOpen, setupCleanupSeen, rvOK, lmax, skipped, preCancelled, ninv, dupSeen, lastCleanT, banner, stageBeginT, why>>
+          mS, mF, mD, mSetup, mSetupRes, labelsBad, stageCur, stageOpen, setupCleanupSeen, rvOK, lmax, skipped, preCancelled, ninv, dupSeen, lastCleanT, banner, stageBeginT, stageEvals, stageEvalT, why>>
 
 Cfg == T[tr].cfg
 Min(a, b) == IF a < b THEN a ELSE b
@@ -57,7 +58,7 @@ Init == /\ tr \in 1..Len(T) /\ i = 0
         /\ ret = [s |-> 0, f |-> 0, d |-> 0, t |-> 0]
         /\ mS = 0 /\ mF = 0 /\ mD = 0 /\ mSetup = 0 /\ mSetupRes = "" /\ labelsBad = FALSE
         /\ stageCur = 0 /\ stageOpen = FALSE /\ setupCleanupSeen = FALSE /\ rvOK = FALSE /\ lmax = 0 /\ skipped = 0
-        /\ preCancelled = FALSE /\ ninv = -1 /\ dupSeen = FALSE /\ lastCleanT = -1 /\ banner = "" /\ stageBeginT = -1
+        /\ preCancelled = FALSE /\ ninv = -1 /\ dupSeen = FALSE /\ lastCleanT = -1 /\ banner = "" /\ stageBeginT = -1 /\ stageEvals = 0 /\ stageEvalT = -1
         /\ why = IF T[tr].err = "" THEN {} ELSE {F("MACHINERY", T[tr].err)}
 
 Unch(vs) == UNCHANGED vs
@@ -84,7 +85,13 @@ Eval(e) ==
                   \/ (e.c + 50000 <= Cfg.step_at_us /\ e.a = 0)
                   \/ (e.c + 50000 > Cfg.step_at_us /\ e.c < Cfg.step_at_us + 150000)
                   \/ (e.c >= Cfg.step_at_us + 150000 /\ (e.a = Cfg.step_val \/ evals + 1 < Cfg.stall_eval + 2))
+        \* config-file runs: the same bound inside each stage, with the interval THAT stage is configured for
+        ivs == Cfg.stage_intervals_us
+        fileCadenceOK == \/ Cfg.mode # "file" \/ ~stageOpen \/ stageCur < 1 \/ stageCur > Len(ivs)
+                         \/ ivs[stageCur] = 0
+                         \/ stageEvals + 1 <= 1 + ((e.c - (IF stageEvalT < 0 THEN e.c ELSE stageEvalT) + 1) \div ivs[stageCur])
     IN /\ why' = why \cup Fails(<< <<cadenceOK, "C09", "more-evaluations-than-ticks">>,
+                                   <<fileCadenceOK, "C09", "more-evaluations-than-ticks-of-the-stage-interval">>,
                                    <<stepOK, "C10", "evaluated-value-is-not-the-profile-at-that-time">> >>)
        /\ evals' = evals + 1 /\ firstEvalT' = t0 /\ pendingV' = e.a
        /\ skipped' = IF pendingV # -1 THEN skipped + 1 ELSE skipped
@@ -403,6 +410,10 @@ Next == /\ i < Len(T[tr].ev)
         \* set by the one event that changes it; every other event leaves it
         /\ preCancelled' = IF T[tr].ev[i + 1].k = "cancelret" THEN (setupSeen = -1) ELSE preCancelled
         /\ ninv' = IF T[tr].ev[i + 1].k = "invocations" THEN T[tr].ev[i + 1].a ELSE ninv
+        /\ stageEvals' = LET e == T[tr].ev[i + 1] IN
+                         IF e.k = "stage" /\ e.b = 1 THEN 0 ELSE IF e.k = "eval" THEN stageEvals + 1 ELSE stageEvals
+        /\ stageEvalT' = LET e == T[tr].ev[i + 1] IN
+                         IF e.k = "stage" /\ e.b = 1 THEN -1 ELSE IF e.k = "eval" /\ stageEvalT < 0 THEN e.c ELSE stageEvalT
         /\ stageBeginT' = IF T[tr].ev[i + 1].k = "stage" /\ T[tr].ev[i + 1].b = 1 THEN T[tr].ev[i + 1].c ELSE stageBeginT
         /\ banner' = IF T[tr].ev[i + 1].k = "summary" THEN T[tr].ev[i + 1].s ELSE banner
         /\ lastCleanT' = IF T[tr].ev[i + 1].k = "cleanup" THEN T[tr].ev[i + 1].c ELSE lastCleanT
